@@ -64,6 +64,7 @@ var Features = []string{
 	"media-picture",      // body picture stored as word/media/picture.png
 	"media-image7",       // body picture stored as word/media/image7.png
 	"sparse-ids",         // relationship ids of the main part are sparse / not of the form rIdN
+	"sparse-ids-even",    // relationship ids of the main part are rId4, rId6, rId8, ...: the id after the first free one is always taken
 	"tbl-nogrid",         // a table without w:tblGrid
 	"sectpr-in-para",     // the section properties live in the last paragraph's w:pPr, no body-level w:sectPr
 	"empty-part",         // a zero-length part (word/embeddings/oleObject1.bin) with a relationship and a Default content type
@@ -84,7 +85,7 @@ func Conflict(a, b string) bool {
 		a, b = b, a
 	}
 	switch a + "+" + b {
-	case "ns-default+ns-x", "hdr-default+hdr-first":
+	case "ns-default+ns-x", "hdr-default+hdr-first", "sparse-ids+sparse-ids-even":
 		return true
 	}
 	return false
@@ -126,6 +127,7 @@ func MainXML(style, bodyW string) []byte {
 
 type idAlloc struct {
 	sparse bool
+	even   bool
 	n      int
 }
 
@@ -133,6 +135,9 @@ var sparsePool = []string{"rId3", "rId7", "rId12", "R9", "rId2", "rId20", "rId21
 
 func (a *idAlloc) next() string {
 	a.n++
+	if a.even {
+		return fmt.Sprintf("rId%d", 2+2*a.n)
+	}
 	if !a.sparse {
 		return fmt.Sprintf("rId%d", a.n)
 	}
@@ -161,7 +166,7 @@ func Compose(feats []string) []byte {
 		has[f] = true
 	}
 	p := New()
-	ids := &idAlloc{sparse: has["sparse-ids"]}
+	ids := &idAlloc{sparse: has["sparse-ids"], even: has["sparse-ids-even"]}
 	body := `<w:p><w:r><w:t>[base]</w:t></w:r></w:p>`
 	sectRefs := ""
 	titlePg := ""
